@@ -214,19 +214,47 @@ class ArffLineReader(Filter[str, Sequence[str]]):
         return self.filter(line)
 
     def _sparse(self, line:str) -> Mapping[int,str]:
-        keys_and_vals = re.split('\s*,\s*|\s+', line.strip("} {"))
-
-        if keys_and_vals != ['']:
-            keys = list(map(int,keys_and_vals[0::2]))
-            vals = keys_and_vals[1::2]
+        if "'" in line or '"' in line:
+            keys,vals = self._sparse_quoted(line)
         else:
-            keys = []
-            vals = []
+            keys_and_vals = re.split('\s*,\s*|\s+', line.strip("} {"))
+
+            if keys_and_vals != ['']:
+                keys = list(map(int,keys_and_vals[0::2]))
+                vals = keys_and_vals[1::2]
+            else:
+                keys = []
+                vals = []
 
         parsed = dict(zip(keys,vals))
         if parsed and (min(parsed.keys()) < 0 or self._n_columns <= max(parsed.keys())):
                 raise CobaException(f"We were unable to parse a line in a way that matched the expected attributes.")
         return parsed
+
+    def _sparse_quoted(self, line:str) -> Tuple[Sequence[int],Sequence[str]]:
+        #a value may be quoted, in which case it can hold spaces, commas and escaped characters
+        keys,vals = [],[]
+        d_line = deque(line.strip()[1:-1].split(','))
+
+        while d_line:
+            item = d_line.popleft()
+            if not item.strip(): continue
+
+            parts = item.split(None,1)
+            key   = parts[0]
+            val   = parts[1] if len(parts) > 1 else ''
+
+            if val and val[0] in self._quotes:
+                while _unclosed(val,val[0]):
+                    val += "," + d_line.popleft()
+                val = _unescape(val.rstrip()[1:-1])
+            else:
+                val = val.rstrip()
+
+            keys.append(int(key))
+            vals.append(val)
+
+        return keys,vals
 
     def _dense_simple(self,line:str)-> Sequence[str]:
         dialect = self._dialect
